@@ -5,6 +5,7 @@ package main
 
 import (
 	"encoding/json"
+	"errors"
 	"fmt"
 	"math"
 	"os"
@@ -33,6 +34,9 @@ type Case struct {
 	// probe of server i of the first Sync that answers what it answered before (TriggerHealthCheck); conc: goroutine i uses Picks[i % len]
 	Picks []int `json:"picks"`
 	Resync bool         `json:"resync"` // conc: one more goroutine keeps issuing such Syncs while the pickers run
+	// conc, Cold > 0: instead of one long run, Cold bursts one after the other, each on a picker over another ORDER of the
+	// servers (a cursor that does not exist yet): all G goroutines meet the missing cursor at the same moment
+	Cold int `json:"cold"`
 	Reuse bool          `json:"reuse"` // one picker per policy (seq) / per goroutine (conc) instead of MatchAttributes per pick
 	Start []StartCursor `json:"start"` // cursor values installed before the picks (for every order of the policy's ready set)
 	G     int           `json:"g"`
@@ -66,6 +70,12 @@ type reply struct {
 	Lb      []lib.LbEnt `json:"lb"`
 	LbPick  []lib.LbEnt `json:"lb_pickone"` // PickOne's own cursors, when the code gives it some
 	Groups  []group     `json:"groups"`
+	PolicyBad *struct {
+		Policy int       `json:"policy"`
+		ID     lib.Ident `json:"id"`
+		Count  int       `json:"count"`
+		N      int       `json:"n"`
+	} `json:"policy_bad"`
 }
 
 type info struct {
@@ -76,6 +86,32 @@ type info struct {
 }
 
 var quiesceTimeout = 10 * time.Second
+
+// permuteStrings returns up to n distinct orders of l (rotations and swaps first, deterministic).
+func permuteStrings(l []string, n int) [][]string {
+	var res [][]string
+	seen := map[string]bool{}
+	var rec func(cur, rest []string)
+	rec = func(cur, rest []string) {
+		if len(res) >= n {
+			return
+		}
+		if len(rest) == 0 {
+			k := strings.Join(cur, ",")
+			if !seen[k] {
+				seen[k] = true
+				res = append(res, append([]string{}, cur...))
+			}
+			return
+		}
+		for i := range rest {
+			next := append(append([]string{}, rest[:i]...), rest[i+1:]...)
+			rec(append(append([]string{}, cur...), rest[i]), next)
+		}
+	}
+	rec(nil, l)
+	return res
+}
 
 func permutations(l []*clusters.EndpointInfo) [][]*clusters.EndpointInfo {
 	if len(l) <= 1 {
@@ -178,7 +214,11 @@ func readable(cs Case) string {
 		return strings.TrimSuffix(b.String(), "; ")
 	}
 	if cs.Kind == "conc" {
-		fmt.Fprintf(&b, "%d goroutines x %d picks, policies %v, reuse=%v, start=%v, concurrent unchanged-server Syncs=%v", cs.G, cs.M, cs.Picks, cs.Reuse, cs.Start, cs.Resync)
+		if cs.Cold > 0 {
+			fmt.Fprintf(&b, "%d bursts, each %d goroutines x %d picks on a picker over another order of the servers (a cursor that does not exist yet)", cs.Cold, cs.G, cs.M)
+		} else {
+			fmt.Fprintf(&b, "%d goroutines x %d picks, policies %v, reuse=%v, start=%v, concurrent unchanged-server Syncs=%v", cs.G, cs.M, cs.Picks, cs.Reuse, cs.Start, cs.Resync)
+		}
 	} else {
 		np, ns, npr, npo := 0, 0, 0, 0
 		for _, p := range cs.Picks {
@@ -206,7 +246,7 @@ func compress(l []int) string {
 	return fmt.Sprintf("%v...(%d)", l[:12], len(l))
 }
 
-func runCase(c *rig.Ctx, cs Case, record bool, inf *info) bool {
+func runCase(c *rig.Ctx, cs Case, record bool, inf *info) (ok bool) {
 	if cs.Kind == "churn" {
 		return runChurn(c, cs, record, inf)
 	}
@@ -229,8 +269,21 @@ func runCase(c *rig.Ctx, cs Case, record bool, inf *info) bool {
 	defer w.Stop()
 	setup := make([]lib.Op, len(cs.Setup))
 	copy(setup, cs.Setup)
+	var setupDiff *lib.SetupMismatch
 	if _, err := lib.Play(c, w, setup); err != nil {
-		return fail("diff", "c14.setup", "set-up: "+err.Error(), nil, nil)
+		if !errors.As(err, &setupDiff) {
+			return fail("diff", "c14.setup", "set-up: "+err.Error(), nil, nil)
+		}
+	}
+	if setupDiff != nil {
+		// the set-up differed from the model: go on, the property is judged on what the real code does; the difference is
+		// reported unless the property itself is found to fail
+		defer func() {
+			if inf.kind != "judge" {
+				fail("diff", "c14.setup", "set-up: "+setupDiff.What, nil, nil)
+				ok = false
+			}
+		}()
 	}
 	if w.CI == nil {
 		return true
@@ -252,7 +305,7 @@ func runCase(c *rig.Ctx, cs Case, record bool, inf *info) bool {
 			orders = permutations(ready)
 		}
 		for _, o := range orders {
-			key := lib.KeyOf(o)
+			key := lib.PolicyScopePrefix(sc.Policy) + lib.KeyOf(o)
 			if seenKey[key] {
 				continue
 			}
@@ -260,7 +313,8 @@ func runCase(c *rig.Ctx, cs Case, record bool, inf *info) bool {
 			if !clusters.VerifSetCursor(w.CI, key, sc.C) {
 				continue // the representation of the cursors is not recognised: no preset
 			}
-			lbModel = append(lbModel, lib.LbEnt{Key: w.Idents(o), C: sc.C})
+			pol := sc.Policy
+			lbModel = append(lbModel, lib.LbEnt{Key: w.Idents(o), C: sc.C, Policy: &pol})
 		}
 	}
 	// the picks
@@ -273,7 +327,40 @@ func runCase(c *rig.Ctx, cs Case, record bool, inf *info) bool {
 		return rig.HexList(clusters.VerifPickerUpstreams(p)), w.PopPicker(p)
 	}
 	var panicMsg string
-	if cs.Kind == "conc" {
+	if cs.Kind == "conc" && cs.Cold > 0 {
+		names := append([]string{}, w.CI.AllEndpoints()...)
+		sort.Strings(names)
+		perms := permuteStrings(names, cs.Cold)
+		for _, order := range perms {
+			p := clusters.VerifNewPicker(w.CI, order)
+			outsB := make([][]*lib.OutJ, cs.G)
+			var wg sync.WaitGroup
+			gate := make(chan struct{})
+			for g := 0; g < cs.G; g++ {
+				wg.Add(1)
+				go func(g int) {
+					defer wg.Done()
+					if msg, panicked := rig.Recover(func() {
+						<-gate
+						for i := 0; i < cs.M; i++ {
+							outsB[g] = append(outsB[g], w.PopPicker(p))
+						}
+					}); panicked {
+						panicMsg = msg
+					}
+				}(g)
+			}
+			close(gate)
+			wg.Wait()
+			for g := range outsB {
+				for _, o := range outsB[g] {
+					uss = append(uss, rig.HexList(order))
+					events = append(events, rig.HexList(order))
+					outs = append(outs, o)
+				}
+			}
+		}
+	} else if cs.Kind == "conc" {
 		type res struct {
 			us  [][]string
 			out []*lib.OutJ
@@ -349,11 +436,11 @@ func runCase(c *rig.Ctx, cs Case, record bool, inf *info) bool {
 		case <-time.After(120 * time.Second):
 			return fail("judge", "c14.hang", "concurrent pickers did not finish within 120 s", nil, nil)
 		}
-		for _, r := range results {
+		for g, r := range results {
 			uss = append(uss, r.us...)
 			outs = append(outs, r.out...)
 			for _, us := range r.us {
-				events = append(events, us)
+				events = append(events, map[string]interface{}{"pick": map[string]interface{}{"us": us, "policy": cs.Picks[g%len(cs.Picks)]}})
 			}
 		}
 	} else {
@@ -442,7 +529,7 @@ func runCase(c *rig.Ctx, cs Case, record bool, inf *info) bool {
 				}
 				us, out := pick(p)
 				uss = append(uss, us)
-				events = append(events, us)
+				events = append(events, map[string]interface{}{"pick": map[string]interface{}{"us": us, "policy": pol}})
 				outs = append(outs, out)
 			}
 		})
@@ -469,7 +556,7 @@ func runCase(c *rig.Ctx, cs Case, record bool, inf *info) bool {
 	}
 	_, lbAfter, serr := w.Snapshot()
 	var m reply
-	if err := c.Model("C14.run", map[string]interface{}{"setup": cs.Setup, "lb": lbModel, "events": events, "impl": outs}, &m); err != nil {
+	if err := c.Model("C14.run", map[string]interface{}{"policy_scopes": lib.PolicyScopes(), "judge_per_policy": lib.PolicyScopes() || c.Search, "setup": cs.Setup, "lb": lbModel, "events": events, "impl": outs}, &m); err != nil {
 		return fail("diff", "c14.model-error", "model error "+err.Error(), nil, nil)
 	}
 	// judge: the counting statements on the implementation's results
@@ -494,6 +581,10 @@ func runCase(c *rig.Ctx, cs Case, record bool, inf *info) bool {
 			}
 			return fail("judge", "c14.uneven", what+"; counts "+countsOf(g), outsSummary(outs), nil)
 		}
+	}
+	if m.PolicyBad != nil && cs.Kind == "seq" {
+		pb := m.PolicyBad
+		return fail("judge", "c14.policies-share-cursor", fmt.Sprintf("policy %d made %d picks over one ordered ready list while other policies picked in between: %s/%d was chosen %d times — not floor/ceil of its own picks: the policy does not rotate through ITS endpoints", pb.Policy, pb.N, rig.UnHex(pb.ID.N), pb.ID.Gen, pb.Count), outsSummary(outs), nil)
 	}
 	inf.n = len(outs)
 	if serr != nil {
@@ -555,12 +646,34 @@ func outsSummary(outs []*lib.OutJ) interface{} {
 
 func epName(i int) string { return rig.Hex(fmt.Sprintf("http://127.0.0.1:%d", 21001+i)) }
 
+// spelledName: endpoint strings that validation accepts and that are not all lower-case digits: upper-case letters in the
+// host, IPv6 brackets with hex letters, a trailing slash, a default port, a path. They are used in servers AND subsets with
+// exactly this spelling (validation demands it), so any normalisation on one path only makes a ready endpoint unreachable.
+func spelledName(family, i int) string {
+	switch family {
+	case 1:
+		return rig.Hex(fmt.Sprintf("http://Node-%d.Example.COM:8080", i))
+	case 2:
+		return rig.Hex(fmt.Sprintf("http://[2001:DB8::%X]:6443/", 10+i))
+	case 3:
+		return rig.Hex(fmt.Sprintf("http://API-%d.example:80/Base", i))
+	}
+	return epName(i)
+}
+
 func genCase(c *rig.Ctx, conc bool) Case {
 	r := c.Rng
 	u := []int{2, 3, 3, 4, 4, 5, 6}[r.Intn(7)]
 	names := make([]string, u)
+	family := 0
+	if r.Intn(3) == 0 {
+		family = 1 + r.Intn(3)
+	}
 	for i := range names {
-		names[i] = epName(i)
+		names[i] = spelledName(family, i)
+		if family != 0 && r.Intn(3) == 0 {
+			names[i] = spelledName(r.Intn(4), i) // mixed spellings in one cluster
+		}
 	}
 	pReady := []float64{0.85, 0.95, 1.0}[r.Intn(3)]
 	var servers []lib.Server
@@ -621,9 +734,14 @@ func genCase(c *rig.Ctx, conc bool) Case {
 	if conc {
 		cs.Kind = "conc"
 		cs.Resync = r.Intn(3) == 0
+		if r.Intn(4) == 0 {
+			cs.Cold, cs.Resync = 6+r.Intn(19), false
+		}
 		cs.G = 2 + r.Intn(31)
 		cs.M = 1 + r.Intn(min(nmax, 400))
-		if r.Intn(2) == 0 {
+		if cs.Cold > 0 {
+			cs.G, cs.M = 12*(1+r.Intn(2)), 5*(1+r.Intn(2)) // G*M = 60, 120, 240: every k <= 6 divides it
+		} else if r.Intn(2) == 0 {
 			// a total that every k <= 6 divides: then floor = ceil and a single lost or duplicated cursor value shows
 			cs.M = 60 * (1 + r.Intn(max(min(nmax, 400)/60, 1)))
 		}
@@ -814,7 +932,9 @@ func main() {
 					}
 					// record the minimised case if it reproduces the same failure, the original observation otherwise
 					var again info
-					if small := shrink(c, cs, inf.kind, inf.class); !runCase(c, small, false, &again) && again.kind == inf.kind && again.class == inf.class {
+					if inf.class == "c14.setup" {
+						c.Fail(*inf.failure) // not minimised: every attempt would wait for probes that do not come
+					} else if small := shrink(c, cs, inf.kind, inf.class); !runCase(c, small, false, &again) && again.kind == inf.kind && again.class == inf.class {
 						c.Fail(*again.failure)
 					} else {
 						c.Fail(*inf.failure)
@@ -839,6 +959,9 @@ func resyncBucket(cs Case) string {
 	if cs.Kind == "conc" {
 		if cs.Resync {
 			return "+syncs"
+		}
+		if cs.Cold > 0 {
+			return "+cold-cursors"
 		}
 		return ""
 	}
